@@ -31,3 +31,103 @@ Proof.
   apply andb_prop in Hok as [Hok H4]. apply andb_prop in Hok as [Hok H3]. apply andb_prop in Hok as [H1 H2].
   repeat split; try assumption. apply negb_true_iff in H4. apply Z.eqb_neq in H4. exact H4.
 Qed.
+
+(* ---------------------------------------------------------------------- *)
+(* Round 6: the table now covers every cased code point; run_C02 looks pairs up
+   in a positive map indexed by the pattern character.  The map is the list. *)
+From Coq Require Import FMapPositive.
+
+Lemma mem_pair_app a b l1 l2 : mem_pair a b (l1 ++ l2) = mem_pair a b l1 || mem_pair a b l2.
+Proof.
+  induction l1 as [|[p q] r IH]; cbn [mem_pair app]; [reflexivity|]. rewrite IH. now rewrite orb_assoc.
+Qed.
+
+Lemma fold_lookup_add m p q a b : 0 < p ->
+  fold_lookup (fold_add m (p, q)) a b = fold_lookup m a b || ((p =? a) && (q =? b)).
+Proof.
+  intros Hp. unfold fold_lookup, fold_add. cbn [fst snd].
+  destruct (0 <? a) eqn:Ea; cbn [andb].
+  - apply Z.ltb_lt in Ea. destruct (Z.eq_dec p a) as [->|Hne].
+    + rewrite PositiveMap.gss. rewrite Z.eqb_refl. cbn [andb mem_Z].
+      destruct (PositiveMap.find (Z.to_pos a) m); cbn [mem_Z]; [apply orb_comm|now rewrite orb_false_r].
+    + rewrite PositiveMap.gso.
+      * apply Z.eqb_neq in Hne. rewrite Hne. cbn [andb]. now rewrite orb_false_r.
+      * intros H. apply Z2Pos.inj in H; [congruence|lia|lia].
+  - apply Z.ltb_ge in Ea. destruct (p =? a) eqn:E; [apply Z.eqb_eq in E; lia|reflexivity].
+Qed.
+
+Lemma fold_lookup_fold l : forallb (fun pq => 0 <? fst pq) l = true ->
+  forall m acc,
+    (forall a b, fold_lookup m a b = (0 <? a) && mem_pair a b acc) ->
+    forall a b, fold_lookup (fold_left fold_add l m) a b = (0 <? a) && mem_pair a b (acc ++ l).
+Proof.
+  induction l as [|[p q] r IH]; intros Hpos m acc Hm a b; cbn [fold_left].
+  - rewrite app_nil_r. apply Hm.
+  - cbn [forallb fst] in Hpos. apply andb_prop in Hpos as [Hp Hr]. apply Z.ltb_lt in Hp.
+    replace (acc ++ (p, q) :: r) with ((acc ++ [(p, q)]) ++ r) by (now rewrite <- app_assoc).
+    apply (IH Hr). intros a' b'. rewrite (fold_lookup_add m p q a' b' Hp), Hm, mem_pair_app.
+    cbn [mem_pair]. rewrite orb_false_r.
+    destruct (0 <? a') eqn:Ea; cbn [andb]; [reflexivity|].
+    apply Z.ltb_ge in Ea. destruct (p =? a') eqn:E; [apply Z.eqb_eq in E; lia|reflexivity].
+Qed.
+
+Lemma fold_pairs_positive : forallb (fun pq => 0 <? fst pq) c02_fold_pairs = true.
+Proof. vm_compute. reflexivity. Qed.
+
+Lemma mem_pair_positive a b : mem_pair a b c02_fold_pairs = true -> 0 < a.
+Proof.
+  intros H. apply mem_pair_in in H.
+  pose proof (proj1 (forallb_forall _ _) fold_pairs_positive _ H) as Hp. cbn [fst] in Hp.
+  now apply Z.ltb_lt.
+Qed.
+
+(* what run_C02 uses for ignore_case=True is exactly "equal, or listed in the table" *)
+Theorem ceq_fold_spec x y : ceq_fold x y = (x =? y) || mem_pair y x c02_fold_pairs.
+Proof.
+  unfold ceq_fold, fold_map, fold_map_of. f_equal.
+  rewrite (fold_lookup_fold c02_fold_pairs fold_pairs_positive (PositiveMap.empty (list Z)) []).
+  - cbn [app]. destruct (0 <? y) eqn:E; cbn [andb]; [reflexivity|].
+    destruct (mem_pair y x c02_fold_pairs) eqn:Em; [|reflexivity].
+    apply mem_pair_positive in Em. apply Z.ltb_ge in E. lia.
+  - intros a b. unfold fold_lookup. rewrite PositiveMap.gempty. cbn [mem_pair]. now rewrite andb_false_r.
+Qed.
+
+(* the relation is transitive as well: with symmetry (fold_table_facts) and
+   reflexivity of ceq_fold it is an equivalence relation on code points *)
+Definition trans_ok (pq : Z * Z) : bool :=
+  forallb (fun rs => if fst rs =? snd pq
+                     then (if fst pq =? snd rs then true else mem_pair (fst pq) (snd rs) c02_fold_pairs)
+                     else true)
+          c02_fold_pairs.
+
+Lemma fold_table_trans_ok : forallb trans_ok c02_fold_pairs = true.
+Proof. vm_compute. reflexivity. Qed.
+
+Lemma fold_table_trans a b c :
+  mem_pair a b c02_fold_pairs = true -> mem_pair b c c02_fold_pairs = true ->
+  a = c \/ mem_pair a c c02_fold_pairs = true.
+Proof.
+  intros H1 H2. apply mem_pair_in in H1, H2.
+  pose proof (proj1 (forallb_forall _ _) fold_table_trans_ok _ H1) as Hok. unfold trans_ok in Hok.
+  pose proof (proj1 (forallb_forall _ _) Hok _ H2) as H. cbn [fst snd] in H.
+  rewrite Z.eqb_refl in H.
+  destruct (a =? c) eqn:E; [left; now apply Z.eqb_eq|right; exact H].
+Qed.
+
+Theorem ceq_fold_equivalence :
+  (forall x, ceq_fold x x = true) /\
+  (forall x y, ceq_fold x y = true -> ceq_fold y x = true) /\
+  (forall x y z, ceq_fold x y = true -> ceq_fold y z = true -> ceq_fold x z = true).
+Proof.
+  split; [|split].
+  - intros x. rewrite ceq_fold_spec, Z.eqb_refl. reflexivity.
+  - intros x y. rewrite !ceq_fold_spec. intros H. apply orb_prop in H as [H|H].
+    + apply Z.eqb_eq in H. subst. now rewrite Z.eqb_refl.
+    + apply fold_table_facts in H as [H _]. rewrite H. apply orb_true_r.
+  - intros x y z. rewrite !ceq_fold_spec. intros H1 H2.
+    apply orb_prop in H1 as [H1|H1]; [apply Z.eqb_eq in H1; subst; exact H2|].
+    apply orb_prop in H2 as [H2|H2]; [apply Z.eqb_eq in H2; subst; rewrite H1; apply orb_true_r|].
+    (* pairs are (pattern, text): H1 : (y, x), H2 : (z, y) *)
+    destruct (fold_table_trans z y x H2 H1) as [->|H]; [now rewrite Z.eqb_refl|].
+    rewrite H. apply orb_true_r.
+Qed.
